@@ -114,13 +114,15 @@ Proof.
 Qed.
 
 (** ** string table *)
-Lemma init_strtab_good alim f sects idx : good (init_strtab alim f (N.of_nat (length sects)) sects idx).
+Lemma init_strtab_good alim f flen sects idx :
+  good (init_strtab alim f flen (N.of_nat (length sects)) sects idx).
 Proof.
   unfold init_strtab.
   destruct ((idx =? 0) || (N.of_nat (length sects) <=? idx)) eqn:E; [auto|].
   apply orb_false_iff in E. destruct E as [_ E]. apply N.leb_gt in E.
   destruct (nth_error sects (N.to_nat idx)) as [ps|] eqn:En.
   2:{ apply nth_error_None in En. lia. }
+  destruct (negb (extent_ok flen (sc_off ps) (sc_size ps))); [auto|].
   destruct (SIZE_MAX <=? sc_size ps); [auto|].
   destruct (negb (alloc alim (sc_size ps + 1))); [auto|].
   destruct (pread_cases f (sc_size ps) (sc_off ps)) as [[c [H _]]|[st [H ->]]]; rewrite H; auto.
@@ -133,7 +135,7 @@ Lemma read_shdrs_zero alim f be is64 entsz off : good (read_shdrs alim f be is64
 Proof. unfold read_shdrs. cbn. auto. Qed.
 
 (** ** init_elf *)
-Lemma init_elf_good alim f be is64 eh : clen eh = 64 -> good (init_elf alim f be is64 eh).
+Lemma init_elf_good alim f flen be is64 eh : clen eh = 64 -> good (init_elf alim f flen be is64 eh).
 Proof.
   intros Heh. unfold init_elf.
   unfold coff, cword.
@@ -184,7 +186,7 @@ Proof.
 Qed.
 
 (** ** do_probe, the note walk, elf_probe *)
-Lemma do_probe_good alim f eh : clen eh = 64 -> good (do_probe alim f eh).
+Lemma do_probe_good alim f flen eh : clen eh = 64 -> good (do_probe alim f flen eh).
 Proof.
   intros Heh. unfold do_probe.
   destruct (cbytes_in eh 0 4) as [mag Hm]; [lia|]. rewrite Hm. cbn [bind].
